@@ -37,11 +37,49 @@ fn load_known() -> Known {
     k
 }
 
+/// `mc __worker <kind> <input.json>`: run one batch of configurations in this (single-threaded)
+/// process and print the merged report as JSON; the parent merges it. Used for regimes whose
+/// builders leak memory in rsdd (SDD decision nodes own heap vectors that the bump arena never
+/// drops), so that the memory goes back to the system when the batch ends.
+fn worker(args: &[String]) {
+    std::panic::set_hook(Box::new(|_| {}));
+    let tier = match std::env::var("VERIF_TIER").ok().as_deref() {
+        Some("thorough") => Tier::Thorough,
+        _ => Tier::Quick,
+    };
+    let seed: u64 = std::env::var("VERIF_SEED").ok().and_then(|s| s.parse::<i64>().ok()).map(|v| v as u64).unwrap_or(0);
+    let wall_cap = std::env::var("VERIF_WALL_CAP_S").ok().and_then(|s| s.parse::<u64>().ok()).unwrap_or(3600);
+    let ctx = Ctx { tier, seed, threads: 1, start: Instant::now(), wall_cap: Duration::from_secs(wall_cap) };
+    let kind = args.get(1).cloned().unwrap_or_default();
+    let input: Value = match args.get(2).and_then(|p| std::fs::read_to_string(p).ok()).and_then(|t| serde_json::from_str(&t).ok()) {
+        Some(v) => v,
+        None => {
+            eprintln!("worker: cannot read input");
+            std::process::exit(2);
+        }
+    };
+    let rep = match kind.as_str() {
+        "sdd" => guarded(|| props::sddsweep::worker_batch(&ctx, &input)),
+        _ => Err(format!("unknown worker kind {}", kind)),
+    };
+    match rep {
+        Ok(r) => println!("{}", r.to_json()),
+        Err(m) => {
+            eprintln!("worker engine panicked: {}", m);
+            std::process::exit(2);
+        }
+    }
+}
+
 fn main() {
     let args: Vec<String> = std::env::args().skip(1).collect();
     if args.is_empty() {
         eprintln!("usage: mc <Cxx> [quick|thorough] [--replay <file>]");
         std::process::exit(2);
+    }
+    if args[0] == "__worker" {
+        worker(&args);
+        return;
     }
     let id = args[0].clone();
     let mut tier = match std::env::var("VERIF_TIER").ok().as_deref() {
